@@ -227,7 +227,7 @@ impl Pkt {
         !self.lens.is_empty() && self.lens.len() <= 3 && self.lens.iter().all(|&l| l >= 1)
             && self.infos.len() == self.lens.len()
             && self.lens.iter().map(|&l| l as usize).sum::<usize>() == self.hops.len()
-            && self.hops.len() <= 63 && self.ci < 4 && self.ch < 64
+            && self.lens.iter().all(|&l| l <= 63) && self.ci < 4 && self.ch < 64
     }
     pub fn to_raw(&self) -> Option<Box<ScionRawPacketView>> {
         if !self.well_formed() { return None; }
@@ -442,6 +442,26 @@ impl World {
             let c = self.case(&self.topo, &self.real, now, *s, 0, q, 2, "peer_xover_splice".into(), vec![]);
             if c.out.end == 4 { continue; }
             out.push(c); made += 1;
+        }
+        // directed: more than 64 hop fields with CurrHF = 63: the pointer must not wrap (routing.rs guards)
+        if out.len() + 2 <= budget && rng.chance(1, 3) {
+            let junk = Hop { flags: 0, exp: 63, cin: 1, ceg: 2, mac: [1, 2, 3, 4, 5, 6] };
+            let (s, d, base, _) = &self.paths[rng.below(self.paths.len() as u64) as usize];
+            // (a) egress guard: an authentic first segment placed behind 63 filler hop fields
+            let l0 = base.lens[0] as usize;
+            if l0 >= 2 {
+                let mut hops = vec![junk.clone(); 63];
+                hops.extend(base.hops[..l0].iter().cloned());
+                let q = Pkt { src: *s, dst: *d, ci: 1, ch: 63, onehop: false, lens: vec![63, l0 as u8],
+                    infos: vec![Info { flags: 0, segid: 0, ts: base.infos[0].ts }, base.infos[0].clone()], hops };
+                let c = self.case(&self.topo, &self.real, now, *s, 0, q, 2, "currhf_limit_egress".into(), vec![]);
+                if c.out.end != 4 { out.push(c); }
+            }
+            // (b) segment-change guard: CurrHF 63 at the end of the second of three segments
+            let q = Pkt { src: *s, dst: *d, ci: 1, ch: 63, onehop: false, lens: vec![62, 2, 2],
+                infos: vec![base.infos[0].clone(), base.infos[0].clone(), base.infos[0].clone()], hops: vec![junk.clone(); 66] };
+            let c = self.case(&self.topo, &self.real, now, *s, 0, q, 2, "currhf_limit_xover".into(), vec![]);
+            if c.out.end != 4 { out.push(c); }
         }
         // directed: one-hop paths over a link (intact, link down, forged MAC, expired, no such interface)
         if !self.topo.links.is_empty() && out.len() + 3 <= budget && rng.chance(1, 2) {
